@@ -60,7 +60,7 @@ for pid in ORDER:
 na.sort(key=lambda x:x["property_id"])
 m = {
  "version":1,
- "setup_cmd":"cd /verif && ./check build /tmp/verif-setup-$$ ; rc=$? ; rm -rf /tmp/verif-setup-$$ ; exit $rc",
+ "setup_cmd":"cd /verif && ./check warm",
  "hooks":{"guard":"none","enable":"no hooks in /repo: every check copies /repo/v4 (working tree) to a scratch directory and rewrites it with /verif/tools/instrument (AST instrumentation of mutexes, channels, go statements, select, tracked field accesses); shipped code is untouched",
           "baseline_off_cmd":"cd /repo/v4 && GOFLAGS=-mod=mod GOPROXY=off GOSUMDB=off go test -vet=off -count=1 ./...","source_commits":[],"add_only":True},
  "engines":[{"name":"simharness","path":"/verif/sim","serves_properties":[c["property_id"] for c in checks],
